@@ -193,18 +193,19 @@ Print Assumptions C04_protocol_convergence.
 (* (7b) APPLY BATCHING. The code does not apply entries one at a time: applyEntries hands a group of committed
         entries to one batch operator (batchable commands read committed data only, one primary key per batch,
         commit before a non-batchable command). That logic is C07's model coq/Determ/Model.v; it is instantiated
-        on Lin/Spec.v (Lin/Batching.v) and added to the protocol as t_apply_group (ANY partition of the next n
+        on Lin/Spec.v (Lin/DetermAdapter.v, the only file of coq/Lin that imports coq/Determ: these theorems
+        DEPEND on C07's development) and added to the protocol (Lin/Batching.v) as t_apply_group (ANY partition of the next n
         entries into apply batches). By C07's theorem batch_equiv_replies the store and every reply of a group
         are those of Spec.step entry by entry, so theorems (4)-(7) hold for the batched system. A batch operator
         admitting two conditional SETs on one key (seeded change C04-a2) breaks C07's theorem and with it these. *)
-From ZV Require Import Lin.Batching Lin.BatchingProofs.
+From ZV Require Import Lin.DetermAdapter Lin.Batching Lin.BatchingProofs.
 
 Theorem C04_batched_is_sequential : forall ents p s s1 o1 e1,
-  NoDup (map e_id ents) -> Determ.Model.flatten p = map req_of ents ->
+  NoDup (map e_id ents) -> bflatten p ents ->
   batched_apply (tbl_of ents) s p = Some (s1, o1, e1) ->
   s1 = run_st s ents /\
   forall j e, nth_error ents j = Some e ->
-    Determ.Model.reply_of res (N.of_nat (e_id e)) o1 = Some (snd (step (run_st s (firstn j ents)) (e_op e))).
+    breply (N.of_nat (e_id e)) o1 = Some (snd (step (run_st s (firstn j ents)) (e_op e))).
 Proof. exact batched_is_sequential. Qed.
 Print Assumptions C04_batched_is_sequential.
 
